@@ -509,6 +509,113 @@ def run_running(case, b):
     return {"bad": bad, "c16": c16, "f5": inherited, "traces": b.run_traces, "nframes": len(st.frames)}
 
 
+def origin_contract(st, label, out):
+    """C16 on any extracted stack: a non-None origin is weak-referenceable and leads back to the frame"""
+    import weakref
+    for idx, fr in enumerate(st.frames):
+        if fr.origin is None:
+            continue
+        try:
+            weakref.ref(fr.origin)
+            om = stackscope.extract_outermost(fr.origin)
+            if om.pyframe is not fr.pyframe:
+                out.append("%s: frame %d (%s): extract_outermost(origin).pyframe is another frame" % (label, idx, fr.funcname))
+        except Exception as ex:
+            out.append("%s: frame %d (%s): origin contract raised %r" % (label, idx, fr.funcname, ex))
+
+
+def other_items():
+    """C16 beyond chains: threads, greenlets, custom stack items with and without frames"""
+    import threading
+    bad = []
+    n = 0
+    ev, ready = threading.Event(), threading.Event()
+
+    def tgen():
+        yield from tinner()
+
+    def tinner():
+        ready.set()
+        ev.wait(10)
+        yield 1
+
+    def body():
+        g = tgen()
+        next(g)
+    th = threading.Thread(target=body, daemon=True)
+    th.start()
+    ready.wait(10)
+    import time
+    time.sleep(0.02)
+    st = stackscope.extract(th)
+    n += 1
+    origin_contract(st, "parked thread", bad)
+    try:
+        f0 = stackscope.extract_outermost(th)
+        if not st.frames or f0.pyframe is not st.frames[0].pyframe:
+            bad.append("parked thread: extract_outermost differs from frames[0]")
+    except Exception as ex:
+        bad.append("parked thread: extract_outermost raised %r" % (ex,))
+    ev.set()
+    th.join(5)
+    for label, t in (("finished thread", th), ("unstarted thread", threading.Thread(target=body))):
+        n += 1
+        st = stackscope.extract(t)
+        try:
+            stackscope.extract_outermost(t)
+            bad.append("%s: extract_outermost returned although extract has no frames" % label)
+        except RuntimeError:
+            pass
+        except Exception as ex:
+            bad.append("%s: extract_outermost raised %r" % (label, ex))
+        if st.frames:
+            bad.append("%s: has frames" % label)
+    try:
+        import greenlet
+
+        def gbody():
+            g = tgen2()
+            next(g)
+
+        def tgen2():
+            greenlet.getcurrent().parent.switch()
+            yield 1
+        gl = greenlet.greenlet(gbody)
+        gl.switch()
+        st = stackscope.extract(gl)
+        n += 1
+        origin_contract(st, "suspended greenlet", bad)
+        f0 = stackscope.extract_outermost(gl)
+        if not st.frames or f0.pyframe is not st.frames[0].pyframe:
+            bad.append("suspended greenlet: extract_outermost differs from frames[0]")
+        gl.throw(greenlet.GreenletExit)
+        for label, g2 in (("dead greenlet", gl), ("unstarted greenlet", greenlet.greenlet(gbody))):
+            n += 1
+            try:
+                stackscope.extract_outermost(g2)
+                bad.append("%s: extract_outermost returned although there are no frames" % label)
+            except RuntimeError:
+                pass
+    except ImportError:
+        pass
+    # custom items: with frames (a box around a parked generator's frame, and around the generator) and without
+    pg = _parked()
+    next(pg)
+    for label, item in (("custom item holding a frame", FrameBox(pg.gi_frame)), ("custom item without frames", object())):
+        n += 1
+        st = stackscope.extract(item)
+        origin_contract(st, label, bad)
+        try:
+            f0 = stackscope.extract_outermost(item)
+            if not st.frames or f0.pyframe is not st.frames[0].pyframe:
+                bad.append("%s: extract_outermost differs from frames[0]" % label)
+        except RuntimeError:
+            if st.frames:
+                bad.append("%s: extract_outermost raised although there are frames" % label)
+    pg.close()
+    return n, bad
+
+
 def main():
     data = json.load(open(sys.argv[1]))
     rec = rec_m1.Recorder()
@@ -526,6 +633,9 @@ def main():
             out.append(r)
             rec.stack[:] = []
     gc.collect()
+    rec.uninstall()
+    n, bad = other_items()
+    out.append({"idx": -1, "other_items": n, "bad": [], "c16": bad, "traces": []})
     json.dump(out, open(sys.argv[2], "w"))
 
 
